@@ -93,6 +93,13 @@ pub enum EvalError {
 
     #[error("Duration is not valid for timeslice: {}", error)]
     InvalidDuration { error: String },
+
+    #[error("The result of {} {} {} is out of range", left, op, right)]
+    OutOfRange {
+        left: String,
+        op: &'static str,
+        right: String,
+    },
 }
 
 pub trait Evaluate<T>: Send + Sync + Clone {
